@@ -816,6 +816,27 @@ Qed.
 Lemma neutral_forget {A} (m : M A) : neutral_prog m -> neutral_prog (forget m).
 Proof. intros H. unfold forget. apply neutral_bind; [exact H | intro; apply neutral_ret]. Qed.
 
+Lemma neutral_sub_init s0 : neutral_prog (sub_init s0).
+Proof. unfold sub_init, annot_path_at, cdir. neutral_all. Qed.
+Lemma neutral_store_key_at s0 name K : neutral_prog (store_key_at (cdir (Some s0)) name K).
+Proof. unfold store_key_at, name_link_at, cdir. neutral_all. Qed.
+Lemma neutral_store_annotation_at s0 name a : neutral_prog (store_annotation_at (cdir (Some s0)) name a).
+Proof. unfold store_annotation_at, annot_lock_at, annot_path_at, annot_tmp_at, cdir. neutral_all. Qed.
+Lemma neutral_retrieve_annotation_at s0 name : neutral_prog (retrieve_annotation_at (cdir (Some s0)) name).
+Proof. unfold retrieve_annotation_at, annot_lock_at, annot_path_at, cdir. neutral_all. Qed.
+Lemma neutral_sub_retrieve s0 name : neutral_prog (sub_retrieve s0 name).
+Proof.
+  unfold sub_retrieve. apply neutral_bind; [apply neutral_get | intro f].
+  destruct (resolve_name_at (cdir (Some s0)) f name); [|apply neutral_fail].
+  apply neutral_bind; [apply neutral_snapshot; apply neutral_ret | intro].
+  apply neutral_bind; [apply neutral_snapshot; apply neutral_retrieve_model_entry | intro].
+  apply neutral_bind; [apply neutral_retrieve_annotation_at | intro]. apply neutral_ret.
+Qed.
+Lemma neutral_store_results c id : neutral_prog (store_results c id).
+Proof. unfold store_results, results_json, results_csv, cdir. destruct c; neutral_all. Qed.
+Lemma neutral_retrieve_results c : neutral_prog (retrieve_results c).
+Proof. unfold retrieve_results, results_json, cdir. destruct c; neutral_all. Qed.
+
 Lemma hoare_inv_true {A} (m : M A) : hoare (fun _ => True) m (fun _ _ => True) -> hoare Inv m (fun _ _ => True).
 Proof.
   intros H. apply (hoare_conseq (fun _ => True) Inv m (fun _ _ => True) (fun _ _ => True));
@@ -841,6 +862,14 @@ Proof.
   - apply hoare_inv_true, neutral_hoare_true, neutral_forget, neutral_snapshot, neutral_read_model.
   - apply hoare_inv_true, neutral_hoare_true, neutral_forget, neutral_retrieve_annotation.
   - apply hoare_inv_true, neutral_hoare_true, neutral_forget, neutral_retrieve_log.
+  - apply hoare_inv_true, neutral_hoare_true, neutral_sub_init.
+  - unfold sub_store.
+    eapply hoare_bind; [apply hoare_transaction, hoare_store_model_entry|]. intros ?.
+    eapply hoare_bind; [apply neutral_hoare_true, neutral_store_key_at|]. intros ?.
+    apply neutral_hoare_true, neutral_store_annotation_at.
+  - apply hoare_inv_true, neutral_hoare_true, neutral_forget, neutral_sub_retrieve.
+  - apply hoare_inv_true, neutral_hoare_true, neutral_store_results.
+  - apply hoare_inv_true, neutral_hoare_true, neutral_forget, neutral_retrieve_results.
 Qed.
 
 Lemma trace_allsteps w : forall f0, Inv f0 -> allsteps (trace w f0) f0.
@@ -981,7 +1010,9 @@ Proof.
                | apply neutral_forget, neutral_ctx_retrieve
                | apply neutral_forget, neutral_snapshot, neutral_read_model
                | apply neutral_forget, neutral_retrieve_annotation
-               | apply neutral_forget, neutral_retrieve_log ]).
+               | apply neutral_forget, neutral_retrieve_log
+               | apply neutral_sub_init | apply neutral_forget, neutral_sub_retrieve
+               | apply neutral_store_results | apply neutral_forget, neutral_retrieve_results ]).
   - assert (Hne : m_key m <> K) by congruence.
     unfold ctx_store. apply all_bind; [|intro].
     + apply all_transaction; try exact Hn; try (eapply avoids_other; [exact Hne | split; reflexivity | reflexivity]).
@@ -997,6 +1028,12 @@ Proof.
     apply all_transaction; try exact Hn; try (eapply avoids_other; [exact Hne | split; reflexivity | reflexivity]).
     apply all_bind; [apply all_of_neutral; [exact Hn | apply neutral_mkdir_p; reflexivity] | intro].
     apply all_write_file. eapply avoids_other; [exact Hne | split; reflexivity | reflexivity].
+  - assert (Hne : m_key m <> K) by congruence.
+    unfold sub_store. apply all_bind; [|intro].
+    + apply all_transaction; try exact Hn; try (eapply avoids_other; [exact Hne | split; reflexivity | reflexivity]).
+      apply all_store_model_entry; try exact Hn; intros c; eapply avoids_other; [exact Hne | split; reflexivity | reflexivity | exact Hne | split; reflexivity | reflexivity].
+    + apply all_bind; [apply all_of_neutral; [exact Hn | apply neutral_store_key_at] | intro].
+      apply all_of_neutral; [exact Hn | apply neutral_store_annotation_at].
 Qed.
 
 Lemma trace_avoids w K : forall f0,
@@ -1128,6 +1165,24 @@ Proof.
   apply all_bind; [apply nosym_snapshot; apply nosym_retrieve_model_entry | intro].
   apply all_bind; [apply nosym_retrieve_annotation | intro]. apply all_ret.
 Qed.
+Lemma nosym_sub_init s0 : all_prog nosym (sub_init s0).
+Proof. unfold sub_init. nosym_all. Qed.
+Lemma nosym_store_annotation_at cp name a : all_prog nosym (store_annotation_at cp name a).
+Proof. unfold store_annotation_at. nosym_all. Qed.
+Lemma nosym_retrieve_annotation_at cp name : all_prog nosym (retrieve_annotation_at cp name).
+Proof. unfold retrieve_annotation_at. nosym_all. Qed.
+Lemma nosym_sub_retrieve s0 name : all_prog nosym (sub_retrieve s0 name).
+Proof.
+  unfold sub_retrieve. apply all_bind; [apply all_get | intro f].
+  destruct (resolve_name_at (cdir (Some s0)) f name); [|apply all_fail].
+  apply all_bind; [apply nosym_snapshot; apply all_ret | intro].
+  apply all_bind; [apply nosym_snapshot; apply nosym_retrieve_model_entry | intro].
+  apply all_bind; [apply nosym_retrieve_annotation_at | intro]. apply all_ret.
+Qed.
+Lemma nosym_store_results c id : all_prog nosym (store_results c id).
+Proof. unfold store_results. nosym_all. Qed.
+Lemma nosym_retrieve_results c : all_prog nosym (retrieve_results c).
+Proof. unfold retrieve_results. nosym_all. Qed.
 Lemma nosym_forget {A} (m : M A) : all_prog nosym m -> all_prog nosym (forget m).
 Proof. intros H. unfold forget. apply all_bind; [exact H | intro; apply all_ret]. Qed.
 
@@ -1228,6 +1283,27 @@ Proof.
   change (committed_in seen K && true = true). rewrite H. reflexivity.
 Qed.
 
+Lemma store_key_at_ops cp name K f :
+  fst (store_key_at cp name K f) =
+  if path_exists f (name_link_at cp name) then []
+  else if exists_ f (key_dir K) then [Symlink (key_dir K) (name_link_at cp name)] else [].
+Proof.
+  unfold store_key_at, bind, get, emit, ret, fail. cbn [fst snd].
+  destruct (path_exists f (name_link_at cp name)); [reflexivity|].
+  destruct (exists_ f (key_dir K)); [|reflexivity].
+  destruct (exists_ f (name_link_at cp name)); [reflexivity|].
+  destruct (parent_ok f (name_link_at cp name)); reflexivity.
+Qed.
+
+Lemma store_key_at_sym cp name K f seen :
+  committed_in seen K = true -> sym_okb seen (fst (store_key_at cp name K f)) = true.
+Proof.
+  intros H. rewrite store_key_at_ops.
+  destruct (path_exists f (name_link_at cp name)); [reflexivity|].
+  destruct (exists_ f (key_dir K)); [|reflexivity].
+  change (committed_in seen K && true = true). rewrite H. reflexivity.
+Qed.
+
 Lemma item_sym i : forall f seen, sym_okb seen (item_ops i f) = true.
 Proof.
   intros f seen. unfold item_ops.
@@ -1236,7 +1312,9 @@ Proof.
          first [ apply nosym_ctx_init | apply nosym_transaction, nosym_store_model_entry
                | apply nosym_store_annotation | apply nosym_store_message
                | apply nosym_forget, nosym_ctx_retrieve | apply nosym_forget, nosym_snapshot, nosym_read_model
-               | apply nosym_forget, nosym_retrieve_annotation | apply nosym_forget, nosym_retrieve_log ]).
+               | apply nosym_forget, nosym_retrieve_annotation | apply nosym_forget, nosym_retrieve_log
+               | apply nosym_sub_init | apply nosym_forget, nosym_sub_retrieve
+               | apply nosym_store_results | apply nosym_forget, nosym_retrieve_results ]).
   - (* ctx.store_model_entry: transaction, then the link, then the annotation *)
     unfold ctx_store.
     destruct (snd (transaction (m_key m) (store_model_entry m) f)) as [e|a] eqn:Et.
@@ -1251,6 +1329,19 @@ Proof.
       * rewrite (bind_inr_ops _ _ _ _ Ek), sym_okb_app, (store_key_sym _ _ _ _ Hc). cbn [andb].
         apply sym_okb_nosym. apply nosym_store_annotation.
   - unfold db_store_metadata. apply sym_okb_nosym. apply nosym_transaction. nosym_all.
+  - (* a subcontext's store_model_entry: the same shape as the top level one *)
+    unfold sub_store.
+    destruct (snd (transaction (m_key m) (store_model_entry m) f)) as [e|a] eqn:Et.
+    + rewrite (bind_inl_ops _ _ _ _ Et). apply sym_okb_nosym. apply nosym_transaction, nosym_store_model_entry.
+    + rewrite (bind_inr_ops _ _ _ _ Et), sym_okb_app.
+      rewrite (sym_okb_nosym _ seen (nosym_transaction _ _ (nosym_store_model_entry m) f)). cbn [andb].
+      set (f1 := run_ops _ f). set (s1 := rev _ ++ seen).
+      assert (Hc : committed_in s1 (m_key m) = true).
+      { unfold s1. rewrite committed_in_app, committed_in_rev, (transaction_commits _ _ _ _ Et). reflexivity. }
+      destruct (snd (store_key_at (cdir (Some s)) (m_name m) (m_key m) f1)) as [e|u] eqn:Ek.
+      * rewrite (bind_inl_ops _ _ _ _ Ek). apply store_key_at_sym. exact Hc.
+      * rewrite (bind_inr_ops _ _ _ _ Ek), sym_okb_app, (store_key_at_sym _ _ _ _ _ Hc). cbn [andb].
+        apply sym_okb_nosym. apply nosym_store_annotation_at.
 Qed.
 
 Lemma trace_sym w : forall f0 seen, sym_okb seen (trace w f0) = true.
@@ -1349,4 +1440,16 @@ Proof.
   - left. apply resolve_name_spec. exact H'.
   - right. pose proof (sym_okb_in _ [] k _ _ K (trace_sym w f0 []) H' eq_refl) as E.
     rewrite app_nil_r, committed_in_rev in E. exact E.
+Qed.
+
+(* the same for ANY link to a key directory, in the top level context or a subcontext *)
+Lemma link_implies_committed_lemma :
+  forall (f0 : fs) (w : list witem) (k : nat) (torn : option nat) (p : path) (K : N),
+    lookup (crash_w f0 w k torn) p = Some (Link (key_dir K)) ->
+    lookup f0 p = Some (Link (key_dir K)) \/ committed_in (firstn k (trace w f0)) K = true.
+Proof.
+  intros f0 w k torn p K H. unfold crash_w in H.
+  destruct (link_from_symlink _ _ _ _ _ _ H) as [H' | H']; [left; exact H'|].
+  right. pose proof (sym_okb_in _ [] k _ _ K (trace_sym w f0 []) H' eq_refl) as E.
+  rewrite app_nil_r, committed_in_rev in E. exact E.
 Qed.
